@@ -132,7 +132,7 @@ def shape_list(tier):
     st_term = ('Inheritance', A(0), A(1))
     ss = sentences(st_term); ts = tasks(st_term)
     if quick:
-        ss = ss[::3]; ts = ts[::2]
+        ss = ss[::2]
     shapes += ss + ts
     # atoms as the whole term of a sentence / task (ambiguity between prefixes, budgets, punctuation)
     for nm, t in depth1_terms()[:7]:
